@@ -203,6 +203,96 @@ class StoreValueMap(Scenario):
             return "ok"
 
 
+class StoreValueMapKeys(Scenario):
+    """value-map keys of other types (integral and non-integral floats, numpy integers, negative numbers) chosen
+    symbolically from an alphabet: a key that is not a non-negative integer value is refused, never silently altered"""
+    pid = "C08"
+    include_io = True
+
+    def run(self, cx):
+        if self.backend == "real":
+            return super().run(cx)
+        with h5shim.h5_on():
+            return super().run(cx)
+
+    def body(self, cx):
+        from geoh5py.workspace import Workspace
+        from geoh5py.objects import Points
+        h5shim.reset()
+        ws = Workspace()
+        pts = Points.create(ws, vertices=real_np.zeros((2, 3)))
+        d = pts.add_data({"rd": {"values": real_np.array([1, 2], dtype="int32"), "type": "referenced", "value_map": {1: "a", 2: "b"}}})
+        alphabet = [1, 2.0, 1.5, 0.25, 3.7, real_np.int32(4), real_np.float64(5.0), -1.0, 2.9999]
+        i, j = int(cx.int("first_key", 0, len(alphabet))), int(cx.int("second_key", 0, len(alphabet)))
+        k1, k2 = alphabet[i], alphabet[j]
+        if float(k1) == float(k2):
+            return "same key"
+        vm = {k1: "first", k2: "second"}
+        bad = [k for k in (k1, k2) if float(k) != math.floor(float(k)) or float(k) < 0]
+        try:
+            d.entity_type.value_map = dict(vm)
+        except Exception as e:  # noqa: BLE001
+            return f"raised {type(e).__name__}"
+        cx.prove(not bad, f"a value map with the key {bad[:1]} (not a non-negative integer value) is refused", "value map rules")
+        live = {int(k): v for k, v in dict(d.entity_type.value_map.map).items()}
+        want = {int(k1): "first", int(k2): "second"}
+        cx.prove(not bad and all(live.get(k) == v for k, v in want.items()) and live.get(0) == "Unknown" and len(live) == 3,
+                 "every key keeps its own label, key 0 stays 'Unknown'", "value map rules")
+        ws.close()
+        ws2 = Workspace(ws.h5file)
+        d2 = [e for e in ws2.data if e.uid == d.uid]
+        back = {int(k): (v.decode() if isinstance(v, bytes) else v) for k, v in dict(d2[0].value_map.map).items()} if d2 else None
+        cx.prove(back == live, "value map read back == value map written", "value map read back")
+        ws2.close()
+        return "ok"
+
+
+class StoreMetadata(Scenario):
+    """metadata dictionaries with values of many Python / numpy types chosen symbolically from an alphabet: what a fresh
+    reader returns equals what was written, or the assignment is refused -- a value is never stored as something else"""
+    pid = "C08"
+    include_io = True
+
+    def run(self, cx):
+        if self.backend == "real":
+            return super().run(cx)
+        with h5shim.h5_on():
+            return super().run(cx)
+
+    def body(self, cx):
+        import datetime
+        import pathlib
+        import decimal
+        from geoh5py.workspace import Workspace
+        from geoh5py.objects import Points
+        h5shim.reset()
+        ws = Workspace()
+        pts = Points.create(ws, vertices=real_np.zeros((2, 3)))
+        alphabet = [1, -2.5, "téxt", True, None, [1, 2.5, "x"], {"n": {"m": [1]}}, datetime.datetime(2020, 5, 21, 10, 12, 15),
+                    pathlib.PurePosixPath("/a/b.txt"), {1, 2}, b"bytes", real_np.int64(3), real_np.float64(2.5), decimal.Decimal("1.5"),
+                    complex(1, 2), 10 ** 20]
+        i, nested = int(cx.int("value", 0, len(alphabet))), bool(cx.bool("nested"))
+        v = alphabet[i]
+        md = {"key": {"inner": v}} if nested else {"key": v, "other": "kept"}
+        try:
+            pts.metadata = md
+            ws.close()
+        except Exception as e:  # noqa: BLE001
+            return f"raised {type(e).__name__}"
+        ws2 = Workspace(ws.h5file)
+        back = ws2.get_entity(pts.uid)[0].metadata
+        got = back["key"]["inner"] if (isinstance(back, dict) and nested and isinstance(back.get("key"), dict)) else \
+            (back.get("key") if isinstance(back, dict) else "<no metadata>")
+        same = type(got) is type(v) and got == v or (isinstance(v, (real_np.integer, real_np.floating)) and got == v
+                                                      and not isinstance(got, str))
+        cx.prove(bool(same), f"metadata value {v!r} ({type(v).__name__}) is read back equal (got {got!r}) or was refused",
+                 "metadata read back")
+        if not nested:
+            cx.prove(isinstance(back, dict) and back.get("other") == "kept", "the other entries are read back too", "metadata read back")
+        ws2.close()
+        return "ok"
+
+
 def _integral(v):
     if is_sym(v):
         import z3
@@ -226,7 +316,7 @@ def scenarios(tier, seed):
               StoreValues(kind="boolean", dtype="int64", pattern="ss"),
               StoreValues(kind="boolean", dtype="bool", pattern="ss"),
               StoreValues(kind="boolean", dtype="float64", pattern="ss"),
-              StoreValueMap(keys=2),
+              StoreValueMap(keys=2), StoreValueMapKeys(), StoreMetadata(),
               StoreValues(kind="integer", dtype="int8", pattern="s", short=1),
               StoreValues(kind="integer", dtype="uint16", pattern="ss", short=1),
               StoreValues(kind="float", dtype="float64", pattern="s", short=2),
@@ -243,7 +333,8 @@ def scenarios(tier, seed):
             S.append(StoreValues(kind="boolean", dtype=dt, pattern="ss"))
         for pat in ("sn", "+", "-", "s+", "sss", "ns-"):
             S.append(StoreValues(kind="integer", dtype="float64", pattern=pat))
-        S += [StoreValues(kind="boolean", dtype="bool", pattern="sss"), StoreValueMap(keys=2), StoreValueMap(keys=3)]
+        S += [StoreValues(kind="boolean", dtype="bool", pattern="sss"), StoreValueMap(keys=2), StoreValueMap(keys=3),
+              StoreValueMapKeys(), StoreMetadata()]
         for dt in DT_RANGE:
             S.append(StoreValues(kind="integer", dtype=dt, pattern="s", short=1))
             S.append(StoreValues(kind="float", dtype=dt, pattern="s", short=1))
@@ -271,5 +362,5 @@ def main(tier, seed):
         bounds={"quick": "arrays of 1-3 elements, each a symbolic finite value / NaN / +inf / -inf; float, integer and boolean "
                          "data; input dtypes float64, int64, int32, uint32, bool; magnitudes unbounded within the dtype",
                 "thorough": "all of numpy's integer dtypes and float32/float64 as input dtype for each data kind"}[tier],
-        expected_outcomes={"StoreValues": {"ok"}, "StoreValueMap": {"ok"}},
+        expected_outcomes={"StoreValues": {"ok"}, "StoreValueMap": {"ok"}, "StoreValueMapKeys": {"ok"}, "StoreMetadata": {"ok"}},
     )
